@@ -10,8 +10,15 @@ on the same arrays.
 Oracle (independent of the code under test): dense numpy Kronecker product U of the per-site matrices:
 U psi, U rho U^dagger, (U psi)[idx s], diag(U rho U^dagger)[idx s]; rotated probabilities >= -tol and summing
 to the normalisation; default dictionary: Z = I, X/Y unitary with rows = bras of the +1/-1 eigenvectors of
-the Pauli matrices (written down here, not taken from the library)."""
-import functools, itertools, math, os, time
+the Pauli matrices (written down here, not taken from the library).
+Beyond the dense oracle (n > 20 sites, k <= 3 rotated sites): the fast paths against the 2^k-term expansion
+sum_v prod_j U_j[s_j, v_j] psi(v) written out here, with psi(v) from the numpy formula of the state (rho(v, v') from the
+state's own vector call form).
+Regimes of the calling program (red-team round 2): library calls under no_grad / inference_mode / enable_grad / default
+dtype float32 or float64; explicit psi / rho, outcome batches and basis rows handed over as strided / transposed / sliced views;
+explicit arrays whose number of sites differs from the state object's; include_extras as bool / numpy bool / int;
+every returned tensor overwritten in place by the caller and the same calls repeated."""
+import contextlib, functools, itertools, math, os, time
 import numpy as np
 import gen
 
@@ -20,13 +27,24 @@ RULE = ("state kinds {ComplexWaveFunction, PositiveWaveFunction (with unitaries=
         "explicit arbitrary complex psi; explicit Hermitian non-symmetric complex rho (indefinite and PSD)} x "
         "all 3^n basis strings over XYZ for n<=3 (quick) / n<=4 (thorough), random longer strings n<=6 (thorough: n<=7), strings with "
         "user-added random 2x2 unitaries (QR of complex Gaussians; passed via unitary_dict= or unitaries=, as tensor or "
-        "nested list, optionally overriding X or Y [and Z: see Z_OVERRIDE_MODE]); basis given as str / list / numpy row; x random batches of outcome states (repeats, any order) plus the full "
-        "space; a case is (state kind, n, basis string, dictionary, batch); "
+        "nested list, optionally overriding X or Y [and Z: see Z_OVERRIDE_MODE]); basis given as str / list / numpy row (also a strided, "
+        "column-major or reversed view); x random batches of outcome states (repeats, any order; contiguous / strided / column-major) plus the full "
+        "space; explicit psi / rho as contiguous tensors and as views (block of a larger array, transposed buffer, re/im interleaved, every "
+        "second column), also with a number of sites different from the state object's; calling modes {ambient, no_grad, inference_mode, "
+        "enable_grad, default dtype float32 / float64}; include_extras as bool / numpy bool / int; every returned tensor overwritten by the caller and "
+        "the calls repeated; n in {21, 25, 40} (thorough: also 30, 60) with k <= 3 rotated sites (sparse 2^k-term oracle) for the fast paths; "
+        "fixed cases of every one of these regimes run first; a case is (state kind, n, basis string, dictionary, batch, mode, layouts); "
         "non-trivial := basis contains Y and differs from its site-reversal")
 ASSUMPTIONS = ["the fast paths' theorems (C04_inner_prod_fastpath, C04_rho_probs_fastpath_*) are about dictionaries in which the letter Z denotes the "
                "identity (lookup _ LZ = I by definition); with Z overridden the implementation's fast paths deviate (known finding F-C04-z-override)",
                "numpy kron / matmul on complex128 are the reference for the dense tensor product",
-               "outcome batches are 2-D double tensors (the library's data type); other dtypes are not generated"]
+               "outcome batches are 2-D double tensors (the library's data type; contiguous or strided views); other dtypes are not generated",
+               "n > 20 sites (no dense oracle): psi(v) on the 2^k expansions comes from the numpy formula of the state (C01), rho(v, v') on the "
+               "expansions of one outcome from the state's own batched rho on those 2^k rows (C02); k <= 3 rotated sites",
+               "an explicit psi / rho is rotated with whatever state object is handed over (it supplies dictionary and device only): its number of "
+               "sites may differ from the array's (red-team C04_3 judged IN scope: the statement does not tie the explicit array to the state's size)",
+               "returned tensors that are views of the caller's own arguments (the expanded states of an all-Z basis) are not overwritten in the "
+               "overwrite-and-repeat relation"]
 # Overriding Z by a non-identity matrix: the sweep (rotate_psi / rotate_rho) uses the overriding matrix, the fast paths
 # (_rotate_basis_state) skip every site whose LETTER is "Z".  In-quantifier failing input on the unchanged tree; the
 # integrator registered it as the OPEN known finding F-C04-z-override (match {"z_overridden": true, "call": "fastpath"}).
@@ -73,13 +91,100 @@ def from_model_c(x):
     return a[..., 0] + 1j * a[..., 1]
 
 
-def stack(z, dtype="double"):
+def stack(z, dtype="double", layout="contiguous"):
     """explicit psi / rho as the library's [re, im] stack; the functions convert whatever dtype they are handed to double
-    (generated with exactly representable data, so the double-precision result is demanded)"""
+    (generated with exactly representable data, so the double-precision result is demanded); layout: see lay()"""
     import torch
     z = np.asarray(z)
     t = torch.tensor(np.stack([z.real, z.imag]), dtype=torch.double)
-    return t if dtype == "double" else t.to(getattr(torch, dtype))
+    return lay(t if dtype == "double" else t.to(getattr(torch, dtype)), layout)
+
+
+MODES = ["ambient", "no_grad", "inference_mode", "enable_grad", "default_float32", "default_float64"]
+LAYOUTS = ["contiguous", "block", "transposed", "interleaved", "step"]
+STATE_LAYOUTS = ["contiguous", "step", "column-major", "block"]
+BASIS_VIEWS = ["ndarray_step", "ndarray_column", "ndarray_reversed"]
+FLAGS = {"bool": (True, False), "numpy": (np.True_, np.False_), "int": (1, 0)}
+
+
+@contextlib.contextmanager
+def dtype_mode(mode):
+    """a calling program sets the default dtype once (float32 is torch's own default, float64 common in numerical work): states
+    are built AND used under it"""
+    import torch
+    if mode in ("default_float32", "default_float64"):
+        old = torch.get_default_dtype()
+        torch.set_default_dtype(torch.float32 if mode == "default_float32" else torch.float64)
+        try:
+            yield
+        finally:
+            torch.set_default_dtype(old)
+    else:
+        yield
+
+
+@contextlib.contextmanager
+def grad_mode(mode):
+    import torch
+    if mode == "no_grad":
+        with torch.no_grad():
+            yield
+    elif mode == "inference_mode":
+        with torch.inference_mode():
+            yield
+    elif mode == "enable_grad":
+        with torch.enable_grad():
+            yield
+    else:
+        yield
+
+
+def lay(t, layout):
+    """the same values as the contiguous tensor t (leading axis = re / im, or a batch of rows), held in the caller's memory
+    the way `layout` says; every result is a legal torch view"""
+    import torch
+    if layout in (None, "contiguous"):
+        return t
+    if layout == "block":               # a block of a larger array (junk around it)
+        big = torch.full(tuple(t.shape[:1]) + tuple(d + 2 for d in t.shape[1:]), 3, dtype=t.dtype)
+        idx = (slice(None),) + tuple(slice(1, d + 1) for d in t.shape[1:])
+        big[idx] = t
+        return big[idx]
+    if layout == "transposed":          # the buffer holds the transposed data; the caller hands over its transpose
+        perm = list(range(t.dim()))[::-1]
+        return t.permute(perm).contiguous().permute(perm)
+    if layout == "column-major":
+        return t.t().contiguous().t()
+    if layout == "interleaved":         # (..., 2) memory, as torch.view_as_real of a complex tensor gives
+        return t.movedim(0, -1).contiguous().movedim(-1, 0)
+    if layout == "step":                # every second column of a wider table
+        wide = torch.full(tuple(t.shape[:-1]) + (2 * t.shape[-1],), 5, dtype=t.dtype)
+        wide[..., ::2] = t
+        return wide[..., ::2]
+    raise ValueError(layout)
+
+
+def storage_of(t):
+    try:
+        return t.untyped_storage().data_ptr()
+    except Exception:
+        return None
+
+
+def overwrite(ts, args=()):
+    """the caller scribbles over tensors the library returned to him -- except those that are views of HIS OWN arguments
+    (the expanded states of an all-Z basis are a view of the batch he passed: writing to them would change the arguments)"""
+    import torch
+    own = set(storage_of(a) for a in args if isinstance(a, torch.Tensor))
+    n = 0
+    with torch.no_grad():
+        for t in ts:
+            if isinstance(t, torch.Tensor) and storage_of(t) not in own:
+                try:
+                    t.mul_(0).add_(7); n += 1
+                except Exception:
+                    pass
+    return n
 
 
 def rand_unitary(rng):
@@ -125,6 +230,15 @@ def basis_in_form(basis, f):
     """the basis in the form the caller passes it: str (single-character names only), list of names, numpy row of names"""
     if f == "ndarray":
         return np.array(list(basis))
+    if f == "ndarray_step":             # every second entry of a wider row of names
+        a = np.array(list(basis))
+        wide = np.full(2 * len(a), "Z", dtype=a.dtype)
+        wide[::2] = a
+        return wide[::2]
+    if f == "ndarray_column":           # one row of a column-major table of bases
+        return np.asfortranarray(np.array([list(basis), list(basis)[::-1], list(basis)]))[0]
+    if f == "ndarray_reversed":         # a reversed view (negative stride)
+        return np.array(list(basis)[::-1])[::-1]
     if f == "str" and all(len(b) == 1 for b in basis):
         return "".join(basis)
     return list(basis)
@@ -171,12 +285,14 @@ def build(spec):
     if route == "none" and (kind != "positive" or user):
         route = "arg"
     ctor_dict = d if route == "ctor" else None
+    # explicit psi / rho: the state object only supplies the dictionary and the device; it may have another number of sites
+    ns = int(spec.get("n_state") or n) if kind in ("psi", "rho") else n
     if kind in ("complex", "psi"):
-        s = ComplexWaveFunction(n, spec.get("nh", n), unitary_dict=ctor_dict, gpu=False)
+        s = ComplexWaveFunction(ns, spec.get("nh", ns), unitary_dict=ctor_dict, gpu=False)
     elif kind == "positive":
         s = PositiveWaveFunction(n, spec.get("nh", n), gpu=False)
     else:
-        s = DensityMatrix(n, spec.get("nh", n), spec.get("na", n), unitary_dict=ctor_dict, gpu=False)
+        s = DensityMatrix(ns, spec.get("nh", ns), spec.get("na", ns), unitary_dict=ctor_dict, gpu=False)
     p = spec.get("params")
     if p is not None:
         if kind == "positive":
@@ -201,7 +317,8 @@ def build(spec):
 def spec_desc(spec):
     return {"kind": spec["kind"], "n": spec["n"], "basis": spec["basis"], "user": sorted(spec["user"].keys()), "xdtype": spec.get("explicit_dtype"),
             "route": spec.get("route"), "form": spec.get("user_form"), "bform": spec.get("basis_form"), "tag": spec.get("tag"),
-            "nstates": len(spec["states"])}
+            "nstates": len(spec["states"]), "mode": spec.get("mode"), "layout": spec.get("layout"), "slayout": spec.get("states_layout"),
+            "n_state": spec.get("n_state"), "flag": spec.get("flag")}
 
 
 def extras_ok(out, n_terms_dims):
@@ -217,7 +334,31 @@ def extras_ok(out, n_terms_dims):
 
 # ----------------------------------------------------------------------------- one case
 def check_spec(ctx, spec):
-    """Run every observable of the property on one (state, dictionary, basis, batch)."""
+    """Run every observable of the property on one (state, dictionary, basis, batch), the library being built and called
+    under the regime spec["mode"] of the calling program."""
+    mode = spec.get("mode") or "ambient"
+    with dtype_mode(mode):
+        built = build(spec)
+        with grad_mode(mode):
+            _check_spec(ctx, spec, built)
+
+
+def value_alone(out):
+    import torch
+    return isinstance(out, torch.Tensor)
+
+
+def same_structure(a, b):
+    """two results of the same call: same nesting, shapes and values"""
+    import torch
+    if isinstance(a, (tuple, list)) or isinstance(b, (tuple, list)):
+        return isinstance(a, (tuple, list)) and isinstance(b, (tuple, list)) and len(a) == len(b) and all(same_structure(x, y) for x, y in zip(a, b))
+    if isinstance(a, torch.Tensor) and isinstance(b, torch.Tensor):
+        return tuple(a.shape) == tuple(b.shape) and bool(torch.allclose(a.double(), b.double(), rtol=1e-12, atol=0, equal_nan=True))
+    return type(a) == type(b)
+
+
+def _check_spec(ctx, spec, built):
     import torch
     from qucumber.utils import unitaries as UU
     m = ctx.get_model()
@@ -225,10 +366,20 @@ def check_spec(ctx, spec):
     zov = z_overridden(spec)
     case = dict(spec, z_overridden=True) if zov else spec
     cfp = dict(case, call="fastpath") if zov else case       # tag for the fast-path oracles (known-finding match)
-    s, uarg, dnp, user, route = build(spec)
+    hist = "every tensor returned so far overwritten in place by the caller (t.mul_(0).add_(7)), then the same call again with the same arguments"
+    s, uarg, dnp, user, route = built
     barg = basis_arg(spec)
     space = s.generate_hilbert_space(n)
-    states = torch.tensor(spec["states"], dtype=torch.double)
+    states = lay(torch.tensor(spec["states"], dtype=torch.double), spec.get("states_layout"))
+    flag = spec.get("flag") or "bool"
+    f_true, f_false = FLAGS[flag]
+    kwf = {} if flag == "bool" else {"include_extras": f_false}      # the default, or "no extras" in another encoding
+    rets = []                                                        # every tensor the library returned (they are the caller's)
+    ctx.count("mode:" + (spec.get("mode") or "ambient")); ctx.count("flag:" + flag)
+    ctx.count("states_layout:" + (spec.get("states_layout") or "contiguous"))
+    if kind in ("psi", "rho"):
+        ctx.count("explicit_layout:" + (spec.get("layout") or "contiguous"))
+        ctx.count("explicit_sites_vs_state:" + ("same" if int(spec.get("n_state") or n) == n else "different"))
     sidx = idx_of(spec["states"])
     full = space.clone()
     lets, userl = letters_for_model(basis, user)
@@ -265,7 +416,7 @@ def check_spec(ctx, spec):
         # ------------------------------------------------------------------ wavefunctions
         if kind == "psi":
             psi_np = np.array(spec["psi"][0]) + 1j * np.array(spec["psi"][1])
-            kwp = {"psi": stack(psi_np, spec.get("explicit_dtype", "double"))}
+            kwp = {"psi": stack(psi_np, spec.get("explicit_dtype", "double"), spec.get("layout"))}
             ctx.count("explicit_dtype:" + spec.get("explicit_dtype", "double"))
         else:
             ok, psi0 = ctx.call("psi(space)", case, lambda: s.psi(space))
@@ -282,6 +433,7 @@ def check_spec(ctx, spec):
         # rotate_psi
         ok, out = ctx.call("rotate_psi", case, lambda: UU.rotate_psi(s, barg, space, unitaries=uarg, **kwp))
         if ok:
+            rets.append(out)
             got = cnp(out)
             ctx.require("rotate_psi == (U_0 (x) ... (x) U_{n-1}) psi", close_c(got, want, bnd), case,
                         {"got": cl(got), "want": cl(want)})
@@ -302,8 +454,10 @@ def check_spec(ctx, spec):
         # rotate_psi_inner_prod on the batch
         fp_ok = True
         ok, out = ctx.call("rotate_psi_inner_prod", cfp,
-                           lambda: UU.rotate_psi_inner_prod(s, barg, states, unitaries=uarg, **kwp))
-        if ok:
+                           lambda: UU.rotate_psi_inner_prod(s, barg, states, unitaries=uarg, **kwp, **kwf))
+        if ok and ctx.require("rotate_psi_inner_prod without extras (default / False / numpy False / 0) returns the amplitudes alone", value_alone(out), cfp,
+                              {"include_extras": repr(kwf.get("include_extras", "default")), "returned": type(out).__name__}):
+            rets.append(out)
             got = cnp(out)
             fp_ok = ctx.require("rotate_psi_inner_prod == (U psi)[idx s]", close_c(got, want[sidx], bnd[sidx]), cfp,
                                 {"got": cl(got), "want": cl(want[sidx])})
@@ -315,6 +469,7 @@ def check_spec(ctx, spec):
         ok, out = ctx.call("rotate_psi_inner_prod(full space)", cfp,
                            lambda: UU.rotate_psi_inner_prod(s, barg, full[perm], unitaries=uarg, **kwp))
         if ok:
+            rets.append(out)
             got = cnp(out)
             ctx.require("rotate_psi_inner_prod over the whole space == U psi (permuted)", close_c(got, want[perm], bnd[perm]), cfp,
                         {"got": cl(got), "want": cl(want[perm])})
@@ -324,7 +479,17 @@ def check_spec(ctx, spec):
         # include_extras=True: the call must work; the layout of the extras is not part of the property, so it is
         # compared with the model only when it has the present layout, as sets keyed by the expanded state
         ok, out = ctx.call("rotate_psi_inner_prod(include_extras)", cfp,
-                           lambda: UU.rotate_psi_inner_prod(s, barg, states, unitaries=uarg, include_extras=True, **kwp))
+                           lambda: UU.rotate_psi_inner_prod(s, barg, states, unitaries=uarg, include_extras=f_true, **kwp))
+        if ok and flag != "bool":
+            # the flag's encoding does not matter: same result (structure and values) as with the Python constant True
+            ok3, out3 = ctx.call("rotate_psi_inner_prod(include_extras=True)", cfp,
+                                 lambda: UU.rotate_psi_inner_prod(s, barg, states, unitaries=uarg, include_extras=True, **kwp))
+            if ok3:
+                ctx.require("rotate_psi_inner_prod: include_extras given as numpy bool / int gives what include_extras=True gives", same_structure(out, out3), cfp,
+                            {"include_extras": repr(f_true), "returned": type(out).__name__, "with True": type(out3).__name__})
+                rets.extend(out3 if isinstance(out3, (tuple, list)) else [out3])
+        if ok:
+            rets.extend(out if isinstance(out, (tuple, list)) else [out])
         if ok and not extras_ok(out, 3):
             ctx.count("extras_layout_not_examined")
         elif ok and (fp_ok or not zov):
@@ -347,11 +512,27 @@ def check_spec(ctx, spec):
                 ctx.agree("extras: value vs (U psi)[idx s]", [gv.real, gv.imag], [want[sidx].real, want[sidx].imag], case, scale=l1)
             else:
                 ctx.count("extras_layout_not_examined")
+        # the caller overwrites what he was handed, then makes the same calls with the same arguments (his explicit psi included)
+        if overwrite(rets, [space, states, full] + list(kwp.values())):
+            ctx.count("returned_tensors_overwritten_before_the_repeated_call")
+        for rnd in range(2):        # second round: each call right after its OWN result was overwritten
+            ok, out = ctx.call("rotate_psi (repeated)", dict(case, history=hist), lambda: UU.rotate_psi(s, barg, space, unitaries=uarg, **kwp))
+            if ok:
+                ctx.require("rotate_psi == (U_0 (x) ... (x) U_{n-1}) psi, called again after the caller overwrote the returned tensors",
+                            close_c(cnp(out), want, bnd), dict(case, history=hist), {"got": cl(cnp(out)), "want": cl(want)})
+                overwrite([out], [space, states, full] + list(kwp.values()))
+        for rnd in range(2):
+            ok, out = ctx.call("rotate_psi_inner_prod (repeated)", dict(cfp, history=hist),
+                               lambda: UU.rotate_psi_inner_prod(s, barg, states, unitaries=uarg, **kwp))
+            if ok and value_alone(out):
+                ctx.require("rotate_psi_inner_prod == (U psi)[idx s], called again after the caller overwrote the returned tensors",
+                            close_c(cnp(out), want[sidx], bnd[sidx]), dict(cfp, history=hist), {"got": cl(cnp(out)), "want": cl(want[sidx])})
+                overwrite([out], [space, states, full] + list(kwp.values()))
     else:
         # ------------------------------------------------------------------ density matrices
         if kind == "rho":
             rho_np = np.array(spec["rho"][0]) + 1j * np.array(spec["rho"][1])
-            kwr = {"rho": stack(rho_np, spec.get("explicit_dtype", "double"))}
+            kwr = {"rho": stack(rho_np, spec.get("explicit_dtype", "double"), spec.get("layout"))}
             ctx.count("explicit_dtype:" + spec.get("explicit_dtype", "double"))
         else:
             ok, rho0 = ctx.call("rho(space, space)", case, lambda: s.rho(space, space))
@@ -368,6 +549,7 @@ def check_spec(ctx, spec):
         wd, bd = np.real(np.diag(want)), np.diag(bnd)
         ok, out = ctx.call("rotate_rho", case, lambda: UU.rotate_rho(s, barg, space, unitaries=uarg, **kwr))
         if ok:
+            rets.append(out)
             got = cnp(out)
             ctx.require("rotate_rho == U rho U^dagger", close_c(got, want, bnd), case,
                         {"got": cl(got) if n <= 2 else "omitted", "maxdiff": float(np.abs(got - want).max()) if got.shape == want.shape else None})
@@ -378,8 +560,10 @@ def check_spec(ctx, spec):
             ms = from_model_c(r[1])
             ctx.agree("rotate_rho vs model (structural)", [got.real, got.imag], [ms.real, ms.imag], case, scale=l1)
         fp_ok = True
-        ok, out = ctx.call("rotate_rho_probs", cfp, lambda: UU.rotate_rho_probs(s, barg, states, unitaries=uarg, **kwr))
-        if ok:
+        ok, out = ctx.call("rotate_rho_probs", cfp, lambda: UU.rotate_rho_probs(s, barg, states, unitaries=uarg, **kwr, **kwf))
+        if ok and ctx.require("rotate_rho_probs without extras (default / False / numpy False / 0) returns the probabilities alone", value_alone(out), cfp,
+                              {"include_extras": repr(kwf.get("include_extras", "default")), "returned": type(out).__name__}):
+            rets.append(out)
             got = out.detach().cpu().numpy()
             fp_ok = ctx.require("rotate_rho_probs == diag(U rho U^dagger)[idx s]", close_c(got, wd[sidx], bd[sidx]), cfp,
                                 {"got": got.tolist(), "want": wd[sidx].tolist()})
@@ -390,6 +574,7 @@ def check_spec(ctx, spec):
         ok, out = ctx.call("rotate_rho_probs(full space)", cfp,
                            lambda: UU.rotate_rho_probs(s, barg, full[perm], unitaries=uarg, **kwr))
         if ok:
+            rets.append(out)
             got = out.detach().cpu().numpy()
             ctx.require("rotate_rho_probs over the whole space == diag(U rho U^dagger) (permuted)", close_c(got, wd[perm], bd[perm]), cfp,
                         {"got": got.tolist(), "want": wd[perm].tolist()})
@@ -406,7 +591,16 @@ def check_spec(ctx, spec):
                 ctx.require("rotated probabilities of a physical state are non-negative", bool(np.all(got >= -1e-12 * max(1.0, l1))), cfp,
                             {"min": float(got.min())})
         ok, out = ctx.call("rotate_rho_probs(include_extras)", cfp,
-                           lambda: UU.rotate_rho_probs(s, barg, states, unitaries=uarg, include_extras=True, **kwr))
+                           lambda: UU.rotate_rho_probs(s, barg, states, unitaries=uarg, include_extras=f_true, **kwr))
+        if ok and flag != "bool":
+            ok3, out3 = ctx.call("rotate_rho_probs(include_extras=True)", cfp,
+                                 lambda: UU.rotate_rho_probs(s, barg, states, unitaries=uarg, include_extras=True, **kwr))
+            if ok3:
+                ctx.require("rotate_rho_probs: include_extras given as numpy bool / int gives what include_extras=True gives", same_structure(out, out3), cfp,
+                            {"include_extras": repr(f_true), "returned": type(out).__name__, "with True": type(out3).__name__})
+                rets.extend(out3 if isinstance(out3, (tuple, list)) else [out3])
+        if ok:
+            rets.extend(out if isinstance(out, (tuple, list)) else [out])
         if ok and not extras_ok(out, 4):
             ctx.count("extras_layout_not_examined")
         elif ok and (fp_ok or not zov):
@@ -430,6 +624,21 @@ def check_spec(ctx, spec):
                 ctx.agree("extras: value vs diag(U rho U^dagger)[idx s]", P.detach().cpu().numpy(), wd[sidx], case, scale=l1)
             else:
                 ctx.count("extras_layout_not_examined")
+        if overwrite(rets, [space, states, full] + list(kwr.values())):
+            ctx.count("returned_tensors_overwritten_before_the_repeated_call")
+        for rnd in range(2):        # second round: each call right after its OWN result was overwritten
+            ok, out = ctx.call("rotate_rho (repeated)", dict(case, history=hist), lambda: UU.rotate_rho(s, barg, space, unitaries=uarg, **kwr))
+            if ok:
+                ctx.require("rotate_rho == U rho U^dagger, called again after the caller overwrote the returned tensors", close_c(cnp(out), want, bnd),
+                            dict(case, history=hist), {"maxdiff": float(np.abs(cnp(out) - want).max()) if cnp(out).shape == want.shape else None})
+                overwrite([out], [space, states, full] + list(kwr.values()))
+        for rnd in range(2):
+            ok, out = ctx.call("rotate_rho_probs (repeated)", dict(cfp, history=hist), lambda: UU.rotate_rho_probs(s, barg, states, unitaries=uarg, **kwr))
+            if ok and value_alone(out):
+                got = out.detach().cpu().numpy().copy()
+                ctx.require("rotate_rho_probs == diag(U rho U^dagger)[idx s], called again after the caller overwrote the returned tensors",
+                            close_c(got, wd[sidx], bd[sidx]), dict(cfp, history=hist), {"got": got.tolist(), "want": wd[sidx].tolist()})
+                overwrite([out], [space, states, full] + list(kwr.values()))
     ctx.traces += 1
 
 
@@ -914,7 +1123,11 @@ def rand_rho(ctx, n, exact=None):
 def base_spec(ctx, kind, n, params_cache, xdtype=None):
     rng = ctx.rng
     spec = {"kind": kind, "n": n, "user": {}, "user_form": str(rng.choice(USER_FORMS)),
-            "basis_form": str(rng.choice(["str", "list", "ndarray"], p=[0.6, 0.2, 0.2]))}
+            "basis_form": str(rng.choice(["str", "list", "ndarray"] + BASIS_VIEWS, p=[0.5, 0.16, 0.16, 0.06, 0.06, 0.06]))}
+    # regime of the calling program, encoding of the include_extras flag, memory layout of the outcome batch
+    spec["mode"] = "ambient" if rng.random() < 0.7 else str(rng.choice(MODES[1:]))
+    spec["flag"] = str(rng.choice(["bool", "numpy", "int"], p=[0.6, 0.2, 0.2]))
+    spec["states_layout"] = str(rng.choice(STATE_LAYOUTS, p=[0.55, 0.15, 0.15, 0.15]))
     # which dictionary reaches the rotation: the state's (ctor), the unitaries= argument (arg), or -- for a
     # PositiveWaveFunction, which has none -- the create_dict() fallback (none)
     spec["route"] = str(rng.choice(["arg", "none"])) if kind == "positive" else str(rng.choice(["ctor", "arg"]))
@@ -933,7 +1146,197 @@ def base_spec(ctx, kind, n, params_cache, xdtype=None):
             spec["psi"] = rand_psi(ctx, n, ex)
         else:
             spec["rho"], spec["tag"] = rand_rho(ctx, n, ex)
+        # memory layout of the explicit array; number of sites of the state object that comes with it
+        spec["layout"] = "contiguous" if rng.random() < 0.5 else str(rng.choice(LAYOUTS[1:]))
+        if rng.random() < 0.3:
+            spec["n_state"] = int(rng.choice([x for x in range(1, 6) if x != n]))
     return spec
+
+
+def plain(spec, **kw):
+    """the ordinary regime in every respect but those given"""
+    spec.update({"mode": "ambient", "flag": "bool", "states_layout": "contiguous", "basis_form": "str"})
+    if spec["kind"] in ("psi", "rho"):
+        spec["layout"] = "contiguous"
+        spec.pop("n_state", None)
+    spec.update(kw)
+    return spec
+
+
+def fixed_regime_cases(ctx):
+    """always run, before anything random: one regime of red-team round 2 at a time, on small asymmetric bases with Y"""
+    def go(kind, basis, **kw):
+        spec = plain(base_spec(ctx, kind, len(basis), {}, xdtype="double"), **kw)
+        spec["basis"] = basis
+        finish(ctx, spec, len(basis))
+    for layout in LAYOUTS[1:]:                      # explicit arrays that are views of the caller's data
+        go("psi", "YXZ", layout=layout)
+        go("rho", "YX", layout=layout)
+    for kind, basis, ns in (("psi", "YZX", 2), ("psi", "XY", 4), ("rho", "YZX", 2), ("rho", "Y", 3)):
+        go(kind, basis, n_state=ns)                 # explicit array with another number of sites than the state object
+    for mode in MODES[1:]:                          # regime of the calling program
+        for kind, basis in (("complex", "YX"), ("positive", "XY"), ("dm", "YX"), ("psi", "ZY"), ("rho", "YZ")):
+            go(kind, basis, mode=mode)
+    for flag in ("numpy", "int"):                   # encoding of include_extras
+        for kind, basis in (("complex", "XY"), ("dm", "YX"), ("psi", "YZ"), ("rho", "XY")):
+            go(kind, basis, flag=flag)
+    for sl in STATE_LAYOUTS[1:]:                    # outcome batches that are views
+        for kind, basis in (("complex", "YXZ"), ("rho", "YX"), ("dm", "ZY")):
+            go(kind, basis, states_layout=sl)
+    for bf in BASIS_VIEWS:                          # basis rows that are views
+        for kind, basis in (("complex", "YXZ"), ("rho", "YX"), ("psi", "XZY")):
+            go(kind, basis, basis_form=bf)
+
+
+# ----------------------------------------------------------------------------- beyond the dense oracle: n > 20 sites
+def np_psi(kind, params, V):
+    """psi(v) of a Complex / PositiveWaveFunction from its parameters (numpy, independent of the library)"""
+    am = [np.array(x, dtype=float) for x in params["am"]]
+    amp = np.exp(-gen.np_eff_energy(*am, V) / 2)
+    if kind == "positive":
+        return amp.astype(complex)
+    ph = [np.array(x, dtype=float) for x in params["ph"]]
+    return amp * np.exp(-0.5j * gen.np_eff_energy(*ph, V))
+
+
+def make_large(ctx, kind, n, k, names=()):
+    """n sites of which k carry a non-Z letter (X, Y or a user-added unitary); small weights so that psi stays in range"""
+    rng = ctx.rng
+    nh, na = int(rng.integers(1, 4)), int(rng.integers(1, 3))
+    spec = plain({"kind": kind, "n": n, "nh": nh, "na": na, "large": True, "user_form": "tensor",
+                  "route": "arg" if kind == "positive" else str(rng.choice(["ctor", "arg"]))})
+    spec["user"] = {nm: (lambda u: [u.real.tolist(), u.imag.tolist()])(rand_unitary_kind(rng)) for nm in names}
+    sites = sorted(int(x) for x in rng.choice(n, size=k, replace=False))
+    basis = ["Z"] * n
+    letters = ["Y", "X"] + list(names)
+    for j, st in enumerate(sites):
+        basis[st] = letters[j % len(letters)] if j < 2 else str(rng.choice(letters))
+    spec["basis"] = basis
+    if kind == "psi":
+        spec["psi_seed"] = int(rng.integers(0, 2 ** 31))         # (the array itself is too long for a replay file)
+        spec["n_state"] = 2
+    else:
+        p = make_params(ctx, kind, n, nh, na)
+        for net in p:                                            # weights O(1/n): energies stay O(n)
+            p[net][0] = (np.array(p[net][0]) * (3.0 / n)).tolist()
+            if kind == "dm":
+                p[net][1] = (np.array(p[net][1]) * (3.0 / n)).tolist()
+        spec["params"] = p
+    B = int(rng.integers(2, 7))
+    st = (rng.random((B, n)) < 0.5).astype(float)
+    st[-1] = st[0]                                               # a repeat
+    spec["states"] = st.tolist()
+    spec["basis_form"] = str(rng.choice(["str", "list", "ndarray"])) if all(len(b) == 1 for b in basis) else "list"
+    return spec
+
+
+def check_large(ctx, spec):
+    mode = spec.get("mode") or "ambient"
+    with dtype_mode(mode):
+        built = build(spec)
+        with grad_mode(mode):
+            _check_large(ctx, spec, built)
+
+
+def _check_large(ctx, spec, built):
+    """The fast paths on a system far beyond full enumeration.  Oracle: the 2^k-term expansion over the rotated sites,
+    (U psi)[s] = sum_v prod_j U_j[s_j, v_j] psi(v);  diag(U rho U^dagger)[s] = sum_{v,v'} Ut(s,v) conj(Ut(s,v')) rho(v,v')."""
+    import torch
+    from qucumber.utils import unitaries as UU
+    m = ctx.get_model()
+    kind, n, basis = spec["kind"], spec["n"], spec["basis"]
+    s, uarg, dnp, user, route = built
+    case = spec
+    barg = basis_arg(spec)
+    ctx.case(spec_desc(spec), nontrivial=nontrivial(basis))
+    ctx.count("kind:" + kind); ctx.count("n:%d" % n); ctx.count("large_n_sparse_oracle"); ctx.count("mode:" + (spec.get("mode") or "ambient"))
+    missing = [b for b in basis if dnp.get(b) is None]
+    if missing:
+        ctx.require("dictionary holds a 2x2 matrix for every letter of the basis", False, case, missing)
+        return
+    sites = [j for j, b in enumerate(basis) if b != "Z"]
+    exps = np.array(list(itertools.product([0, 1], repeat=len(sites))), dtype=float).reshape(2 ** len(sites), len(sites))
+    st = np.array(spec["states"], dtype=float)
+    B, E = len(st), len(exps)
+    V = np.repeat(st[None], E, axis=0)                           # V[e, b, :] = outcome b with the rotated sites set to expansion e
+    if sites:
+        V[:, :, sites] = exps[:, None, :]
+    Ut = np.ones((E, B), dtype=complex)                          # prod_j U_j[s_j, v_j]
+    for j, site in enumerate(sites):
+        u = dnp[basis[site]]
+        Ut *= u[st[None, :, site].astype(int), exps[:, None, j].astype(int)]
+    states = lay(torch.tensor(spec["states"], dtype=torch.double), spec.get("states_layout"))
+    lets, userl = letters_for_model(basis, user)
+    ex = m.call("c04_expansions", userl, lets, spec["states"])
+    if kind in ("complex", "positive", "psi"):
+        if kind == "psi":
+            g = np.random.Generator(np.random.PCG64(spec["psi_seed"]))
+            psi_np = g.normal(size=2 ** n) + 1j * g.normal(size=2 ** n)
+            kwp = {"psi": stack(psi_np, "double", spec.get("layout"))}
+            pv = psi_np[idx_of(V.reshape(-1, n))].reshape(E, B)
+            psi_at = lambda rows: psi_np[idx_of(rows)]
+        else:
+            kwp = {}
+            pv = np_psi(kind, spec["params"], V.reshape(-1, n)).reshape(E, B)
+            psi_at = lambda rows: np_psi(kind, spec["params"], rows)
+        want = (Ut * pv).sum(0)
+        bnd = (np.abs(Ut) * np.abs(pv)).sum(0)
+        ok, out = ctx.call("rotate_psi_inner_prod (n > 20)", case, lambda: UU.rotate_psi_inner_prod(s, barg, states, unitaries=uarg, **kwp))
+        if ok and ctx.require("rotate_psi_inner_prod (n > 20) returns the amplitudes alone", value_alone(out), case, type(out).__name__):
+            got = cnp(out)
+            ctx.require("rotate_psi_inner_prod == sum over the 2^k expansions of prod_j U_j[s_j, v_j] psi(v)  (n > 20 sites)", close_c(got, want, bnd), case,
+                        {"got": cl(got), "want": cl(want)})
+            mv = np.array([sum(complex(u[0], u[1]) * z for u, z in zip(ex[b][1], psi_at(np.array(ex[b][0], dtype=float)))) for b in range(B)])
+            ctx.agree("rotate_psi_inner_prod vs model expansions (n > 20)", [got.real, got.imag], [mv.real, mv.imag], case, scale=float(bnd.max()))
+            overwrite([out])
+            ok, out = ctx.call("rotate_psi_inner_prod (n > 20, repeated)", case, lambda: UU.rotate_psi_inner_prod(s, barg, states, unitaries=uarg, **kwp))
+            if ok and value_alone(out):
+                ctx.require("rotate_psi_inner_prod (n > 20 sites) called again after the caller overwrote the returned tensor", close_c(cnp(out), want, bnd), case,
+                            {"got": cl(cnp(out)), "want": cl(want)})
+    else:
+        want = np.zeros(B); bnd = np.zeros(B); mvals = np.zeros(B)
+        for b in range(B):
+            Vb = torch.tensor(V[:, b, :], dtype=torch.double)
+            ok, rb = ctx.call("rho on the expansions of one outcome", case, lambda: s.rho(Vb, Vb))
+            if not ok:
+                return
+            rb = cnp(rb)
+            want[b] = float(np.real(np.einsum("e,f,ef->", Ut[:, b], Ut[:, b].conj(), rb)))
+            bnd[b] = float(np.einsum("e,f,ef->", np.abs(Ut[:, b]), np.abs(Ut[:, b]), np.abs(rb)))
+            order = idx_of(np.array(ex[b][0], dtype=float)[:, sites]) if sites else np.array([0])
+            mu = np.array([complex(u[0], u[1]) for u in ex[b][1]])
+            mvals[b] = float(np.real(np.einsum("e,f,ef->", mu, mu.conj(), rb[np.ix_(order, order)])))
+        ok, out = ctx.call("rotate_rho_probs (n > 20)", case, lambda: UU.rotate_rho_probs(s, barg, states, unitaries=uarg))
+        if ok and ctx.require("rotate_rho_probs (n > 20) returns the probabilities alone", value_alone(out), case, type(out).__name__):
+            got = out.detach().cpu().numpy()
+            ctx.require("rotate_rho_probs == sum over the expansions of Ut(s,v) conj Ut(s,v') rho(v,v')  (n > 20 sites)", close_c(got, want, bnd), case,
+                        {"got": got.tolist(), "want": want.tolist()})
+            ctx.agree("rotate_rho_probs vs model expansions (n > 20)", got, mvals, case, scale=float(bnd.max()))
+            ctx.require("rotated probabilities of a physical state are non-negative (n > 20 sites)", bool(np.all(got >= -1e-10 * bnd)), case, {"min": float(got.min())})
+    ctx.traces += 1
+
+
+def large_cases(ctx):
+    """always run in the quick tier (cheap: 2^k expansions of a handful of outcomes)"""
+    sizes = [21, 25, 40] + ([30, 60] if ctx.thorough else [])
+    for n in sizes:
+        check_large(ctx, make_large(ctx, "complex", n, 2 if n == 21 else int(ctx.rng.integers(1, 4))))
+        check_large(ctx, make_large(ctx, "positive", n, int(ctx.rng.integers(1, 4))))
+        check_large(ctx, make_large(ctx, "dm", n, int(ctx.rng.integers(1, 3))))
+    check_large(ctx, make_large(ctx, "complex", 22, 3, names=("H", "s")))
+    check_large(ctx, make_large(ctx, "dm", 23, 2, names=("h",)))
+    check_large(ctx, plain(make_large(ctx, "complex", 24, 0)))
+    check_large(ctx, dict(make_large(ctx, "complex", 26, 2), mode="no_grad"))
+    check_large(ctx, dict(make_large(ctx, "dm", 21, 2), mode="inference_mode"))
+    check_large(ctx, dict(make_large(ctx, "positive", 33, 3), mode="default_float64", states_layout="step"))
+    check_large(ctx, make_large(ctx, "psi", 21, 2))
+    for c in range(12 if ctx.thorough else 0):
+        kind = ["complex", "positive", "dm"][c % 3]
+        spec = make_large(ctx, kind, int(ctx.rng.integers(21, 64)), int(ctx.rng.integers(0, 3 if kind == "dm" else 4)),
+                          names=("Q",) if c % 4 == 0 and kind != "positive" else ())
+        spec["mode"] = MODES[c % len(MODES)]
+        spec["states_layout"] = STATE_LAYOUTS[c % len(STATE_LAYOUTS)]
+        check_large(ctx, spec)
 
 
 KINDS = ["complex", "positive", "psi", "dm", "rho"]
@@ -950,6 +1353,8 @@ def run(ctx):
     ctx.torch_seed()
     check_default_dict(ctx)
     check_size_guard(ctx)
+    fixed_regime_cases(ctx)
+    large_cases(ctx)
     fixed_histories(ctx)
     fixed_name_and_dtype_cases(ctx)
     for c in range(40 if ctx.thorough else 10):
@@ -1008,6 +1413,8 @@ def search(ctx, broken, budget_s):
     t0 = time.time()
     n0 = len(ctx.failures)
     check_default_dict(ctx)
+    fixed_regime_cases(ctx)
+    large_cases(ctx)
     fixed_histories(ctx)
     fixed_name_and_dtype_cases(ctx)
     if len(ctx.failures) > n0:
@@ -1048,8 +1455,8 @@ def replay(ctx, rec):
     if case.get("kind") == "history":
         check_history(ctx, {k: v for k, v in case.items() if k != "failed_at"})
     elif "kind" in case:
-        spec = {k: v for k, v in case.items() if k not in ("call", "z_overridden")}
-        check_spec(ctx, spec)
+        spec = {k: v for k, v in case.items() if k not in ("call", "z_overridden", "history")}
+        (check_large if spec.get("large") else check_spec)(ctx, spec)
     elif case.get("call") == "create_dict":
         check_default_dict(ctx)
     elif case.get("call") == "rotate_psi":
